@@ -163,7 +163,59 @@ def confirm_gate(chk, f, native):
         f['confirmed'] = True
         f['what'] = 'build(%r, ecl=%s, version=%s, mode=%s, mask=%s) gives "%s", expected "%s"' % (
             inp, opt('ecl'), opt('forced'), opt('mode'), opt('mask'), got, want)
+        return f
+    # the model's (short) input does not show it: the gate's decisions depend on the input through its length only, so probe
+    # the capacity boundaries natively (witness search after a symbolic failure; never used to pass)
+    w = probe_gate(native)
+    if w is not None:
+        f['confirmed'] = True
+        f['what'] = '%s  [%s]' % (w[0], f.get('what', ''))
+        f['replay'] = {'request': w[1], 'expect': w[2]}
     return f
+
+
+def probe_gate(native):
+    """builds at capacity boundaries for every mode x level option x forced-version option against the ISO capacity oracle"""
+    ch = {0: 0x37, 1: 0x41, 2: 0x61}
+    for m in range(3):
+        for e in (None, 0, 1, 2, 3):
+            level = 2 if e is None else e
+            caps = {}
+            for v in (1, 2, 10, 27, 40):
+                n = 0
+                while iso.fits(v, iso.LEVELS[level], iso.MODES[m], n + 1):
+                    n += 1 if n < 64 else 64
+                while not iso.fits(v, iso.LEVELS[level], iso.MODES[m], n):
+                    n -= 1
+                caps[v] = n
+            capL = caps[40]
+            n_l = capL
+            while iso.fits(40, 'L', iso.MODES[m], n_l + 1):
+                n_l += 1
+            lengths = sorted({0, 1, caps[1], caps[1] + 1, caps[2] + 1, caps[10] + 1, caps[27] + 1, capL, capL + 1, n_l, n_l + 1})
+            for n in lengths:
+                for forced in (None, 1, 2, 40):
+                    for mo in (None, m):
+                        data = bytes([ch[m]]) * n
+                        o2s = lambda x: '-' if x is None else str(x)
+                        req = 'build %s %s %s %s -' % (OV.hexs(data), o2s(e), o2s(None if forced is None else forced - 1), o2s(mo))
+                        ans = native.ask(req)
+                        auto = iso.min_version(iso.LEVELS[level], iso.MODES[m], n)
+                        if auto is None:
+                            want = 'ERR EncodedData'
+                        elif forced is not None and forced < auto:
+                            want = 'ERR SpecifiedVersion'
+                        else:
+                            want = 'OK version=%d ecl=%d mode=%d' % ((forced or auto) - 1, level, m)
+                        if ans.startswith('OK'):
+                            fl = OV.parse_fields(ans)
+                            got = 'OK version=%s ecl=%s mode=%s' % (fl['version'], fl['ecl'], fl['mode'])
+                        else:
+                            got = ans[:60]
+                        if got != want:
+                            return ('build(%d x %r, ecl=%s, version=%s, mode=%s) gives "%s", expected "%s"' % (
+                                n, chr(ch[m]), o2s(e), o2s(forced), o2s(mo), got, want), req[:200], want)
+    return None
 
 
 def job_glue(job):
